@@ -158,7 +158,8 @@ class Ctx:
             return self._harness
         out = self.path("bin", "vh")
         env = goenv()
-        hdir = os.path.join(VERIF, "harness")
+        # (VERIF_DEV_HARNESS: a copy of harness/ whose go.mod points at a scratch copy of the repository; development only)
+        hdir = os.environ.get("VERIF_DEV_HARNESS") or os.path.join(VERIF, "harness")
         shutil.copy(os.path.join(REPO, "go.sum"), os.path.join(hdir, "go.sum"))
         t0 = time.time()
         p = subprocess.run(["go", "build", "-tags", "verif", "-o", out, "./cmd/vh"], cwd=hdir, env=env,
